@@ -22,7 +22,7 @@
    the arrays (nth with a default models an out-of-range read; every theorem
    carries the in-range guard). *)
 Require Import ZArith List Bool.
-Require Import BFL.Ops BFL.Density BFL.C01_Model.
+Require Import BFL.Ops BFL.Density BFL.C01_Model BFL.C05_Model.
 Import ListNotations.
 
 (* w_k = w_{k-1} + log(l + eps) + log(t + eps) - log(q + eps), eps = numeric_limits<double>::min()
@@ -153,9 +153,60 @@ Definition pf_predict {n} (skip : bool) (gp : gstep n) (prev pred_old : pset n) 
   if skip then prev else gpf_predict gp prev pred_old.
 
 (* ---- GPFCorrection ------------------------------------------------------- *)
-(* sampleFromProposal: mean + sqrt_P * rand_vectors, sqrt_P the LDL^T-based factor *)
+(* The square root used by sampleFromProposal (GPFCorrection.cpp:137-140):
+     LDLT<MatrixXd> chol_ldlt(covariance);
+     sqrt_P = (transpositionsP() * I)^T * matrixL() * vectorD().cwiseSqrt().asDiagonal()
+   with Eigen's pivoting rule transcribed (Eigen/src/Cholesky/LDLT.h, ldlt_inplace<Lower>::unblocked):
+   at step k the first largest |diagonal entry| among positions >= k of the symmetrically
+   permuted matrix is swapped into position k; the factorisation is left-looking, so the
+   diagonal entries compared are those of the ORIGINAL matrix; only the lower triangle is read;
+   a column whose pivot is exactly 0 is not scaled.  Written against mget / mbuild, so it
+   exists at every instance.  Its contract (L L^T = P for symmetric positive definite P) is a
+   premise of the theorems that need it and is checked at run time on both sides. *)
+Definition sabs8 (x : T S) : T S := if sltb S x (s0 S) then sopp S x else x.
+
+Fixpoint argmax_from (d : nat -> T S) (rest : list nat) (j best : nat) (bestv : T S) : nat :=
+  match rest with
+  | [] => best
+  | p :: rest' => let v := sabs8 (d p) in
+                  if sltb S bestv v then argmax_from d rest' (Datatypes.S j) j v
+                  else argmax_from d rest' (Datatypes.S j) best bestv
+  end.
+Definition swap_pos (k b : nat) (perm : list nat) : list nat :=
+  map (fun idx => nth (if Nat.eqb idx k then b else if Nat.eqb idx b then k else idx) perm 0)
+      (seq 0 (length perm)).
+Definition ldlt_perm (n : nat) (d : nat -> T S) : list nat :=
+  fold_left (fun perm k =>
+               let b := argmax_from d (skipn (Datatypes.S k) perm) (Datatypes.S k) k (sabs8 (d (nth k perm 0))) in
+               swap_pos k b perm)
+            (seq 0 n) (seq 0 n).
+Fixpoint index_of (r : nat) (perm : list nat) (i : nat) : nat :=
+  match perm with
+  | [] => i
+  | p :: rest => if Nat.eqb p r then i else index_of r rest (Datatypes.S i)
+  end.
+
+Definition ldlt_sqrt {n} (A : M O n n) : M O n n :=
+  let perm := ldlt_perm n (fun i => mget A i i) in
+  (* B = P A P^T, read from the lower triangle of A *)
+  let B i j := let pi := nth i perm 0 in let pj := nth j perm 0 in
+               if Nat.leb pj pi then mget A pi pj else mget A pj pi in
+  let lij (cols : list (list (T S))) i k := nth i (nth k cols []) (s0 S) in
+  let step (st : list (list (T S)) * list (T S)) (j : nat) :=
+    let '(cols, ds) := st in
+    let acc i := fold_left (fun a k => ssub S a (smul S (smul S (lij cols i k) (lij cols j k)) (nth k ds (s0 S))))
+                           (seq 0 j) (B i j) in
+    let dj := acc j in
+    let col := map (fun i => if Nat.ltb i j then s0 S else if Nat.eqb i j then s1 S
+                             else if sltb S (s0 S) (sabs8 dj) then sdiv S (acc i) dj else acc i)
+                   (seq 0 n) in
+    (cols ++ [col], ds ++ [dj]) in
+  let '(cols, ds) := fold_left step (seq 0 n) ([], []) in
+  mbuild n n (fun r c => smul S (lij cols (index_of r perm 0) c) (ssqrt S (nth c ds (s0 S)))).
+
+(* sampleFromProposal: mean + sqrt_P * rand_vectors *)
 Definition sample_from_proposal {n} (m : M O n 1) (P : M O n n) (z : M O n 1) : M O n 1 :=
-  madd m (mmul (msqrt P) z).
+  madd m (mmul (ldlt_sqrt P) z).
 
 (* evaluateProposal: multivariate_gaussian_density(state, mean, covariance).coeff(0) *)
 Definition evaluate_proposal {n} (x m : M O n 1) (P : M O n n) : T S := density x m P.
@@ -202,14 +253,24 @@ Definition gpf_correct {n} (gc : gstep n)
       true ls.
 
 (* ---- the models plugged in by the correspondence check -------------------- *)
-(* GaussianLikelihood::likelihood over a linear measurement model (H, R) that
-   serves y; meas_valid = validity returned by MeasurementModel::measure().
-   An unusable measurement returns (false, VectorXd::Zero(1)). *)
+(* GaussianLikelihood::likelihood (GaussianLikelihood.cpp:27-77) over a measurement model
+   with measurement function h and noise covariance R that serves y.  The four flags are the
+   validities returned by measure(), predictedMeasure(), innovation() and
+   getNoiseCovarianceMatrix(), tested in this order; each failure returns
+   (false, VectorXd::Zero(1)).  The innovation of the shipped models is y - h(x), column-wise. *)
+Definition gauss_lik_h {n m} (scale : T S) (v_meas v_pred v_innov v_cov : bool)
+           (h : M O n 1 -> M O m 1) (R : M O m m) (y : M O m 1) (xs : list (M O n 1))
+  : bool * list (T S) :=
+  if negb v_meas then (false, [s0 S])
+  else if negb v_pred then (false, [s0 S])
+  else if negb v_innov then (false, [s0 S])
+  else if negb v_cov then (false, [s0 S])
+  else (true, map (fun x => smul S scale (density (lin_innovation (h x) y) (mzero m 1) R)) xs).
+
+(* ... over a linear measurement model (H, R) *)
 Definition gauss_lik {n m} (scale : T S) (meas_valid : bool) (H : M O m n) (R : M O m m)
            (y : M O m 1) (xs : list (M O n 1)) : bool * list (T S) :=
-  if negb meas_valid then (false, [s0 S])
-  else (true, map (fun x => smul S scale
-                              (density (lin_innovation (lin_predicted H x) y) (mzero m 1) R)) xs).
+  gauss_lik_h scale meas_valid true true true (lin_predicted H) R y xs.
 
 (* a likelihood model whose validity is scripted by the harness *)
 Definition scripted_lik {n} (ok : bool) (inner : list (M O n 1) -> bool * list (T S))
@@ -236,6 +297,30 @@ Definition kf_corr_gstep {n m} (meas_valid : bool) (H : M O m n) (R : M O m m) (
     if meas_valid
     then combine (map (fun o => ko_comp o) (kf_correct H R y (map fst pred))) (map snd old)
     else pred.
+
+(* UKFCorrection (additive measurement model) and SUKFCorrection as wrapped steps, built from
+   C05's per-component models over an arbitrary measurement function h: they write mean(i),
+   covariance(i) of the output and leave its weights; when they cannot use the measurement
+   (or are told to skip) they copy their input. *)
+Definition ukf_corr_gstep {n m} (usable : bool) (w : utw O) (h : M O n 1 -> M O m 1) (R : M O m m)
+           (y : M O m 1) : gstep n :=
+  fun pred old =>
+    if usable
+    then combine (map (fun c : gcomp O n => let o := C05_Model.ukf_correct_comp w h y R (gmean c) (gcov c) in
+                                            mkGcomp (uo_mean o) (uo_cov o)) (map fst pred))
+                 (map snd old)
+    else pred.
+Definition sukf_corr_gstep {n m} (usable : bool) (w : utw O) (h : M O n 1 -> M O m 1) (R : M O m m)
+           (y : M O m 1) : gstep n :=
+  fun pred old =>
+    if usable
+    then combine (map (fun c : gcomp O n => let o := sukf_correct_comp w h y (NoiseReduced (s:=m) R) (gmean c) (gcov c) in
+                                            mkGcomp (so_mean o) (so_cov o)) (map fst pred))
+                 (map snd old)
+    else pred.
+(* a Gaussian step that is skipping (GaussianPrediction::skip_ / GaussianCorrection::skip_):
+   the output mixture becomes a copy of the input mixture *)
+Definition copy_gstep {n} : gstep n := fun a _ => a.
 
 (* KFPrediction::predictStep over an LTI state model without exogenous input,
    component by component (C02 models the general step): mean F m, covariance
@@ -275,6 +360,21 @@ Definition gpf_step {n} (st : fstate n) (s : step_in n) : fstate n :=
 Definition gpf_run {n} (st : fstate n) (h : list (step_in n)) : fstate n :=
   fold_left gpf_step h st.
 
+(* PFPrediction::predict / PFCorrection::correct with their skip flags: a skipped prediction
+   copies the previous set, a skipped correction copies the predicted set and leaves
+   valid_likelihood_ / likelihood_ as they were *)
+Definition pf_step {n} (st : fstate n) (ssk : step_in n * (bool * bool)) : fstate n :=
+  let '(s, (skip_p, skip_c)) := ssk in
+  let pred := pf_predict skip_p (si_gp s) (fs_corr st) (fs_pred st) in
+  if skip_c then mkFstate pred pred (fs_valid st) (fs_lik st)
+  else let r := gpf_correct (si_gc s) (si_lik s) (si_trans s) (si_zs s) pred (fs_corr st) in
+       mkFstate pred (cr_particles r) (cr_valid r) (cr_lik r).
+Fixpoint pf_trace {n} (st : fstate n) (h : list (step_in n * (bool * bool))) : list (fstate n) :=
+  match h with
+  | [] => []
+  | s :: h' => let st' := pf_step st s in st' :: pf_trace st' h'
+  end.
+
 (* every intermediate state of a history, in order (for the correspondence check) *)
 Fixpoint gpf_trace {n} (st : fstate n) (h : list (step_in n)) : list (fstate n) :=
   match h with
@@ -290,7 +390,8 @@ Arguments pbelief {_ n}. Arguments gm_of {_ n}. Arguments belief_at {_ n}.
 Arguments gpf_predict {_ n}. Arguments pf_predict {_ n}.
 Arguments sample_from_proposal {_ n}. Arguments evaluate_proposal {_ n}.
 Arguments gpf_beliefs {_ n}. Arguments gpf_drawn {_ n}. Arguments gpf_correct {_ n}.
-Arguments gauss_lik {_ n m}. Arguments scripted_lik {_ n}. Arguments lin_trans {_ n}. Arguments cauchy_trans {_ n}.
+Arguments gauss_lik {_ n m}. Arguments gauss_lik_h {_ n m}. Arguments ldlt_sqrt {_ n}. Arguments pf_step {_ n}. Arguments pf_trace {_ n}.
+Arguments ukf_corr_gstep {_ n m}. Arguments sukf_corr_gstep {_ n m}. Arguments copy_gstep {_ n}. Arguments scripted_lik {_ n}. Arguments lin_trans {_ n}. Arguments cauchy_trans {_ n}.
 Arguments kf_corr_gstep {_ n m}. Arguments kf_pred_comp {_ n}. Arguments kf_pred_gstep {_ n}.
 Arguments mkStepIn {_ n}. Arguments si_gp {_ n}. Arguments si_gc {_ n}. Arguments si_lik {_ n}.
 Arguments si_trans {_ n}. Arguments si_zs {_ n}.
